@@ -40,7 +40,7 @@ ASSUMPTIONS = [
     'divergent indexes and the DefaultIndexStore bookkeeping are NOT covered',
     'BinaryHeap/BTreeMap are native models; resolve_commit_id_prefix / neighbour lookups belong to C20 and are not covered here',
 ]
-BUDGET = {'quick': 900, 'thorough': 3000}
+BUDGET = {'quick': 900, 'thorough': 6000}
 F = 'lib/src/default_index/composite.rs'
 FB = 'lib/src/default_index/bit_set.rs'
 SPARSE = [0, 1, 62, 63, 64, 65]
